@@ -1,4 +1,5 @@
 import OnlVerif.Lemmas.OnceRun
+import OnlVerif.Lemmas.OnceDec
 /-! # Concrete programs and states for the non-vacuity examples of the "exactly once" theorems -/
 
 namespace Once
@@ -115,5 +116,38 @@ theorem demo_safe : SafeProg demoBody := by
       simp only [SafeBurst]
       exact ⟨hlt, by rw [hs1]; simp⟩
   | n + 2 => simp only [demoBody, SafeBurst]
+
+/-! ## a program that is safe only as a run: one process waits for an event that another one succeeds later -/
+
+/-- local state = (program counter, the shared event).  `(0,_)` main: create event `e`, start the child `(1,e)`, sleep one
+time unit, continue as `(2,e)`: succeed `e` with 7 and return.  `(1,e)` child: wait for `e`, continue as `(3,e)`: return. -/
+def waitBody : Nat × EvId → Resume → Burst ℚ (Nat × EvId)
+  | (0, _), _ => .call .event fun r =>
+      match r with
+      | .ev e => .call (.spawn (1, e)) fun _ => .call (.timeout 1 .none) fun r2 =>
+          match r2 with
+          | .ev t => .yield t (2, e)
+          | _ => .ret .none
+      | _ => .ret .none
+  | (2, e), _ => .call (.succeed e (.int 7)) fun _ => .ret .none
+  | (1, e), _ => .yield e (3, e)
+  | _, _ => .ret .none
+
+/-- the main process has been started from outside -/
+def wait0 : KState ℚ (Nat × EvId) := (doCall ({ now := 0 } : KState ℚ (Nat × EvId)) 0 (.spawn (0, 0))).1
+
+theorem wait0_inv : Inv0 true wait0 :=
+  (Inv0.init true 0 #[] (fun r => by simp [default])).spawn 0 (0, 0)
+
+/-- the run of `waitBody` ends after 6 steps, and each of them is safe -/
+theorem wait_safe : SafeRun waitBody 5 wait0 :=
+  SafeUpTo.safeRun (N := 7) (by decide +kernel)
+
+/-- …although the program text alone is not: in another state the same `succeed` would hit a non-existent event -/
+theorem wait_not_safeProg : ¬ SafeProg waitBody := by
+  intro h
+  have := h 0 (2, 0) .start ({ now := 0 } : KState ℚ (Nat × EvId))
+  revert this
+  decide +kernel
 
 end Once
